@@ -16,7 +16,7 @@ import (
 //
 // Exhaustive over the 8-bit domains, oracle = independent math formulas.
 
-var c18AllEncs = []alphabet.Encoding{alphabet.Sanger, alphabet.Solexa, alphabet.Illumina1_3, alphabet.Illumina1_5, alphabet.Illumina1_8, alphabet.Illumina1_9}
+var c18AllEncs = []alphabet.Encoding{alphabet.Sanger, alphabet.Solexa, alphabet.Illumina1_3, alphabet.Illumina1_5, alphabet.Illumina1_8, alphabet.Illumina1_9, alphabet.None}
 
 func init() {
 	register(&obs.Monitor{
@@ -117,6 +117,18 @@ func c18Case(r *obs.Run, i int) {
 					r.Violate("phred-roundtrip", fmt.Sprintf("linear.QSeq QDecode(QEncode) %d under %s = %d", q, encNames[e], got),
 						c18w{"linear.QSeq-roundtrip", q, encNames[e], got, q})
 				}
+				// the string rendering of the score container carries the same byte, also when the encoding was set afterwards
+				ph2 := quality.NewPhred("x", []alphabet.Qphred{alphabet.Qphred(q), alphabet.Qphred(q)}, alphabet.None)
+				ph2.SetEncoding(e)
+				if str := ph2.String(); len(str) != 2 || int(str[0]) != q+phredOffset(e) || str[1] != str[0] || ph2.Encoding() != e {
+					r.Violate("phred-encode-byte", fmt.Sprintf("quality.Phred String() of two scores %d under %s (set with SetEncoding) is %q", q, encNames[e], str),
+						c18w{"quality.Phred-String", q, encNames[e], str, q + phredOffset(e)})
+				}
+				// the error probability read through the containers is the score's, whatever the encoding
+				if !relClose(ph.EAt(0), alphabet.Qphred(q).ProbE()) || !relClose(qs.EAt(0), alphabet.Qphred(q).ProbE()) {
+					r.Violate("phred-prob", fmt.Sprintf("EAt of Qphred(%d) under %s: quality.Phred %g, linear.QSeq %g, ProbE %g", q, encNames[e], ph.EAt(0), qs.EAt(0), alphabet.Qphred(q).ProbE()),
+						c18w{"EAt", q, encNames[e], []float64{ph.EAt(0), qs.EAt(0)}, alphabet.Qphred(q).ProbE()})
+				}
 				// the FASTQ rendering (%q verb) carries the same byte
 				if lines := strings.Split(fmt.Sprintf("%q", qs), "\n"); len(lines) < 4 || len(lines[3]) != 1 || int(lines[3][0]) != q+phredOffset(e) {
 					r.Violate("phred-encode-byte", fmt.Sprintf("linear.QSeq %%q rendering of Qphred(%d) under %s is %q, want quality byte %d", q, encNames[e], lines, q+phredOffset(e)),
@@ -126,7 +138,7 @@ func c18Case(r *obs.Run, i int) {
 		}
 		// every byte under every encoding, through both decoders: neither panics, and the decoder of the other score type
 		// is the own-type decoder followed by the conversion
-		for _, e := range append(append([]alphabet.Encoding(nil), c18AllEncs...), alphabet.None) {
+		for _, e := range c18AllEncs {
 			for b := 0; b < 256; b++ {
 				func() {
 					defer func() {
@@ -166,6 +178,12 @@ func c18Case(r *obs.Run, i int) {
 			if got := alphabet.Solexa.DecodeToQsolexa(b); int(got) != s {
 				r.Violate("solexa-roundtrip", fmt.Sprintf("decode(encode(Qsolexa %d))=%d", s, got),
 					c18w{"solexa-roundtrip", s, "Solexa", got, s})
+			}
+			so2 := quality.NewSolexa("x", []alphabet.Qsolexa{alphabet.Qsolexa(s), alphabet.Qsolexa(s)}, alphabet.None)
+			so2.SetEncoding(alphabet.Solexa)
+			if str := so2.String(); len(str) != 2 || int(str[0]) != s+64 || str[1] != str[0] || !relClose(so2.EAt(1), alphabet.Qsolexa(s).ProbE()) {
+				r.Violate("solexa-encode-byte", fmt.Sprintf("quality.Solexa String()/EAt of two scores %d (encoding set with SetEncoding): %q, %g", s, str, so2.EAt(1)),
+					c18w{"quality.Solexa-String", s, "Solexa", str, s + 64})
 			}
 			so := quality.NewSolexa("x", []alphabet.Qsolexa{alphabet.Qsolexa(s)}, alphabet.Solexa)
 			if got := so.QDecode(so.QEncode(0)); int(got) != s {
